@@ -15,7 +15,7 @@
 //!           keys (to reach the cache's capacity).
 //!
 //! usage: drv_containers --programs <file|-> --out <file|-> [--timeout SECS]
-//!        drv_containers --random N [--len L] --out <file> [--dump-programs <file>]
+//!        drv_containers --random N [--len L] --out <file> [--dump-programs <file> [--dump-only]]
 //!
 //! The driver records (operation, arguments, result, state read back through the public API and
 //! from the file system); it never judges.  Verdicts: spec/trace/T_Containers.tla.
@@ -914,8 +914,11 @@ fn random_dyn(rng: &mut Rng, len: usize) -> Value {
                 }
             }
             json!({"op": "write", "p": pn(any)})
-        } else if x < 58 {
+        } else if x < 54 {
             json!({"op": "read", "p": pn(if rng.chance(1, 8) { any } else { known })})
+        } else if x < 58 {
+            // a byte range (offset > 0)
+            json!({"op": "read", "p": pn(known), "off": 1 + rng.below(420), "len": rng.below(60)})
         } else if x < 66 {
             json!({"op": "remove", "p": pn(known)})
         } else if x < 70 {
@@ -1016,6 +1019,11 @@ fn main() {
                 d.ev(&prog);
             }
             programs.push(prog);
+        }
+        if has_flag(&args, "--dump-only") {
+            // generation only: the programs are executed by sharded runs of --programs
+            eprintln!("{}", json!({"generated": programs.len()}));
+            return;
         }
     }
     let timeout = std::time::Duration::from_secs(arg_u64(&args, "--timeout", 60));
